@@ -1,7 +1,76 @@
-(* WireVm.v — wire interfaces of the "vm" area (see docs/AGENT_GUIDE.md for the id range).
-   [run_vm c] receives the whole case (first element = interface id). *)
+(* WireVm.v — wire interfaces of the "vm" area (ids 70-99).
+   70: session — `70 nforms (len cp...)*`: each form text is evaluated datum by datum
+       in ONE vm booted with the prelude; result: per datum `OK <write>` | `ERR` |
+       `ERR user <irritants>` | `ERR incomplete`, then ` LOG` and the display/write log. *)
 From Coq Require Import String.
-From MW Require Import Model.Base Model.Datum.
+From MW Require Import Model.Base Model.F64 Model.Num Model.NumFmt Model.Datum Model.Lex Model.Parse
+  Model.VmTypes Model.Heap Model.VmBase Model.Compile Model.Vm Model.Builtins.
 Open Scope N_scope.
 
-Definition run_vm (c : list N) : list N := S_ "BADCASE".
+Fixpoint take_texts (k : nat) (c : list N) : option (list text) :=
+  match k with
+  | O => match c with [] => Some [] | _ => None end
+  | S k' =>
+      match c with
+      | n :: r =>
+          let n' := N.to_nat n in
+          if (length r <? n')%nat then None else
+          match take_texts k' (skipn n' r) with
+          | Some ts => Some (firstn n' r :: ts)
+          | None => None
+          end
+      | [] => None
+      end
+  end.
+
+Definition show_form_result (r : form_result) : list N :=
+  match r with
+  | FOk c => S_ " OK "%string ++ esc_text (write c)
+  | FErr e msg =>
+      if e =? E_INCOMPLETE then S_ " ERR incomplete"%string
+      else if e =? E_USER then S_ " ERR user "%string ++ esc_text msg
+      else S_ " ERR"%string
+  | FPanic => S_ " PANIC"%string
+  | FNoFuel => S_ " NOFUEL"%string
+  end.
+
+Definition show_ev (e : outev) : list N :=
+  match e with
+  | EvDisplay c => S_ " D:"%string ++ esc_text (display c)
+  | EvWrite c => S_ " W:"%string ++ esc_text (write c)
+  end.
+
+Fixpoint run_forms (forms : list text) (s : vm) (acc : list N) : list N * vm :=
+  match forms with
+  | [] => (acc, s)
+  | t :: r =>
+      let '(rs, s') := eval_text_all (S (length t)) t s [] in
+      run_forms r s' (acc ++ S_ " |"%string ++ flat_map show_form_result rs)
+  end.
+
+Definition run_session_from (b : option vm) (forms : list text) : list N :=
+  match b with
+  | None => S_ "BOOTFAIL"%string
+  | Some s0 =>
+      let '(out, s) := run_forms forms s0 [] in
+      S_ "SESSION"%string ++ out ++ S_ " LOG"%string ++ flat_map show_ev (rev (out_log s))
+  end.
+
+Definition run_session := run_session_from booted.
+(* 71: debugging aid — a machine booted WITHOUT the prelude (core forms only) *)
+Definition booted_bare : option vm := boot_with [].
+
+Definition run_vm (c : list N) : list N :=
+  match c with
+  | 70 :: n :: rest =>
+      match take_texts (N.to_nat n) rest with
+      | Some forms => run_session forms
+      | None => S_ "BADCASE"%string
+      end
+  | 71 :: n :: rest =>
+      match take_texts (N.to_nat n) rest with
+      | Some forms => run_session_from booted_bare forms
+      | None => S_ "BADCASE"%string
+      end
+  | _ => S_ "BADCASE"%string
+  end.
